@@ -668,6 +668,7 @@ class Store:
                     not str(key).startswith('_') for key in config)):
             emit_value = config.pop('_emit')
             self.set_emit_value(emit=emit_value)
+            self.branch_emit = emit_value
             # the children that this very configuration declares are
             # covered too, unless they carry a flag of their own
             config = {
@@ -747,6 +748,12 @@ class Store:
 
             for key, child in config.items():
                 if key not in self.inner:
+                    if self.branch_emit is not None and isinstance(
+                            child, dict) and '_emit' not in child:
+                        # a child that joins a branch covered by a
+                        # branch-level flag (declared by an earlier
+                        # configuration), without a flag of its own
+                        child = dict(child, _emit=self.branch_emit)
                     self.inner[key] = Store(child, outer=self, source=source)
                 else:
                     self.inner[key]._apply_config(child, source=source)
